@@ -957,6 +957,33 @@ impl<'a> VisitMut for Norm<'a> {
                 }
             }
         }
+        // N20: `X.iter().flat_map(|item| F).collect()`  ==>  `{ let mut __out = Vec::new(); for item in X.iter() { let mut __part = F; __out.append(&mut __part); } __out }`
+        // (what flat_map + collect into a Vec mean for a closure that returns a Vec; makes the iteration a loop Verus can see)
+        if let Expr::MethodCall(col) = e {
+            if col.method == "collect" && col.args.is_empty() {
+                if let Expr::MethodCall(fm) = &*col.receiver {
+                    if fm.method == "flat_map" && fm.args.len() == 1 {
+                        if let (Expr::Closure(cl), Expr::MethodCall(it)) = (&fm.args[0], &*fm.receiver) {
+                            if it.method == "iter" && it.args.is_empty() && cl.inputs.len() == 1 {
+                                let pat = &cl.inputs[0];
+                                let body = &cl.body;
+                                let src = &fm.receiver;
+                                let new: Expr = parse_quote!({
+                                    let mut __out = Vec::new();
+                                    for #pat in #src {
+                                        let mut __part = #body;
+                                        __out.append(&mut __part);
+                                    }
+                                    __out
+                                });
+                                *e = new;
+                                self.stats.bump("N20.flat_map_collect_as_loop");
+                            }
+                        }
+                    }
+                }
+            }
+        }
         // N18b (directive option `forslice`): `for P in E.iter() B`  ==>  `{ let __it = &E; let mut __i: usize = 0; while __i < __it.len() { let P = &__it[__i]; __i += 1; B } }`
         // (definition of iterating a slice/array by reference)
         if self.forslice {
